@@ -304,6 +304,7 @@ struct Universe {
     keys: Vec<Device<MockSigner>>, // namespace k = keys[k-1]; sorted by public key
     local_extra: Device<MockSigner>,
     server: Device<MockSigner>,
+    rekey: Device<MockSigner>,
     objs: HashMap<&'static str, git2::Oid>,            // o1 o2 o3 i1 i2 i2f r rX og
     sigs: HashMap<(usize, String, String), git2::Oid>, // (ns, ver, fl) -> sigrefs commit
     names: HashMap<git2::Oid, String>,                 // reverse map for projections
@@ -379,18 +380,20 @@ impl Universe {
             }
         }
         // `r` and `i1` are the same commit; the projection calls it by the name the slot expects.
-        let mut u = Universe { _tmp: tmp, dir, repo, rid, keys, local_extra, server, objs, sigs: HashMap::new(), names, counter: 0 };
-        for ns in 1..=n {
-            for ver in VERS {
-                for fl in FLAVOURS {
-                    let parent = if ver == "v1" { None } else { Some(u.sigs[&(ns, "v1".to_string(), "ok".to_string())]) };
-                    let oid = u.mk_sig(ns, ver, fl, parent, &rekey);
-                    u.names.insert(oid, format!("{ver}.{fl}"));
-                    u.sigs.insert((ns, ver.to_string(), fl.to_string()), oid);
-                }
-            }
+        Universe { _tmp: tmp, dir, repo, rid, keys, local_extra, server, rekey, objs, sigs: HashMap::new(), names, counter: 0 }
+    }
+
+    /// The sigrefs commit `(ver, fl)` of namespace `ns`, created on first use.
+    fn sig(&mut self, ns: usize, ver: &str, fl: &str) -> git2::Oid {
+        let key = (ns, ver.to_string(), fl.to_string());
+        if let Some(o) = self.sigs.get(&key) {
+            return *o;
         }
-        u
+        let parent = if ver == "v1" { None } else { Some(self.sig(ns, "v1", "ok")) };
+        let oid = self.mk_sig(ns, ver, fl, parent);
+        self.names.insert(oid, format!("{ver}.{fl}"));
+        self.sigs.insert(key, oid);
+        oid
     }
 
     fn pk(&self, ns: usize) -> PublicKey {
@@ -405,11 +408,11 @@ impl Universe {
     }
 
     /// Write the `rad/sigrefs` commit `(ver, fl)` of namespace `ns` as a raw commit.
-    fn mk_sig(&self, ns: usize, ver: &str, fl: &str, parent: Option<git2::Oid>, rekey: &Device<MockSigner>) -> git2::Oid {
+    fn mk_sig(&self, ns: usize, ver: &str, fl: &str, parent: Option<git2::Oid>) -> git2::Oid {
         let raw = self.repo.raw();
         let refs = Refs::from(self.real_refs(ver, fl));
         let canonical = refs.canonical();
-        let signer = if fl == "rekeyed" { rekey } else { &self.keys[ns - 1] };
+        let signer = if fl == "rekeyed" { &self.rekey } else { &self.keys[ns - 1] };
         let signature: radicle::crypto::Signature = signer.try_sign(&canonical).expect("sign");
         let mut sig_bytes = signature.as_ref().to_vec();
         if fl == "forged" {
@@ -464,7 +467,7 @@ impl Universe {
                         actual.insert("zz", "o2");
                     }
                     "moved" => {
-                        let cur = actual["ha"];
+                        let cur = actual.get("ha").copied().unwrap_or("o2");
                         actual.insert("ha", if cur == "o1" { "o3" } else { "o1" });
                     }
                     "missing" => {
@@ -584,13 +587,37 @@ fn apply_event(u: &Universe, n: usize, up: &RefUpdate) -> Value {
             short = if rest == "refs/rad/sigrefs" { "sig".to_string() } else { short_name(rest) };
         }
     }
-    let to = new.map(|o| u.names.get(&*o).cloned().unwrap_or_else(|| format!("?{o}"))).unwrap_or_else(|| "-".into());
+    let abs = new.map(|o| u.names.get(&*o).cloned().unwrap_or_else(|| format!("?{o}")));
+    if short == "sig" {
+        // the model's event carries the sigrefs commit as a record
+        let (ver, fl) = abs
+            .as_deref()
+            .and_then(|a| a.split_once('.'))
+            .map(|(v, f)| (v.to_string(), f.to_string()))
+            .unwrap_or(("?".into(), "?".into()));
+        return json!({"k": kind, "ns": ns, "name": short, "to": "", "sig": {"ver": ver, "fl": fl}});
+    }
+    let to = abs.unwrap_or_else(|| "-".into());
     let to = if to == "r" && short == "id" { "i1".to_string() } else { to };
-    json!({"k": kind, "ns": ns, "name": short, "to": to})
+    json!({"k": kind, "ns": ns, "name": short, "to": to, "sig": {"ver": "none", "fl": "ok"}})
 }
 
 fn run_scenario(u: &mut Universe, sc: &Scenario) -> Outcome {
     u.counter += 1;
+    // the sigrefs commits this scenario talks about
+    for (i, s) in sc.srv.iter().enumerate() {
+        if !s.sig.is_none() {
+            u.sig(i + 1, &s.sig.ver, &s.sig.fl);
+        }
+    }
+    for (i, l) in sc.loc.iter().enumerate() {
+        if !l.is_none() {
+            u.sig(i + 1, &l.ver, &l.fl);
+        }
+    }
+    for (ns, ver) in sc.refs_at.iter().flatten() {
+        u.sig(*ns, ver, "ok");
+    }
     u.set_server(sc);
     let local_dev: &Device<MockSigner> = if sc.local == 0 { &u.local_extra } else { &u.keys[sc.local - 1] };
     let local_pk = *local_dev.public_key();
@@ -747,10 +774,12 @@ fn split<T>(items: Vec<T>, k: usize, key: impl Fn(&T) -> String) -> Vec<Vec<T>> 
     for g in gs {
         // large groups are split further (a universe costs ~0.2 s to build)
         let chunks = (g.len() / 40).clamp(1, k);
-        let per = g.len().div_ceil(chunks);
-        let mut it = g.into_iter().peekable();
-        while it.peek().is_some() {
-            let part: Vec<T> = it.by_ref().take(per).collect();
+        // round-robin, so that every part keeps the caller's priority order
+        let mut parts: Vec<Vec<T>> = (0..chunks).map(|_| Vec::new()).collect();
+        for (i, it) in g.into_iter().enumerate() {
+            parts[i % chunks].push(it);
+        }
+        for part in parts {
             let tgt = out.iter_mut().min_by_key(|v| v.len()).unwrap();
             tgt.extend(part);
         }
@@ -776,6 +805,8 @@ fn main() {
             let cases = read_ndjson(Path::new(args.req("--cases")));
             let out = PathBuf::from(args.req("--out"));
             let verbose = mode == "run";
+            let budget = args.num("--budget-secs", 100_000);
+            let t0 = std::time::Instant::now();
             let chunks = split(cases, nthreads, uni_key);
             let handles: Vec<_> = chunks
                 .into_iter()
@@ -786,6 +817,10 @@ fn main() {
                         let mut recs: Vec<Value> = Vec::new();
                         let mut stats: BTreeMap<String, u64> = BTreeMap::new();
                         for c in chunk {
+                            if t0.elapsed().as_secs() > budget {
+                                *stats.entry("skipped_budget".into()).or_default() += 1;
+                                continue;
+                            }
                             let sc = Scenario::parse(&c);
                             let u = cache.get(&work, &sc);
                             let o = run_scenario(u, &sc);
@@ -802,9 +837,18 @@ fn main() {
                             let exp_res = c["exp"]["result"].as_str().unwrap_or("?").to_string();
                             let state_ok = exp == o.after;
                             let res_ok = exp_res == o.result;
+                            // order and kind of the applied updates: informational (drift)
+                            let real_events: Vec<&Value> = o.applied.iter().filter(|e| e["k"] != "rejected").collect();
+                            let exp_events: Vec<&Value> = c["exp"]["events"].as_array().map(|a| a.iter().collect()).unwrap_or_default();
+                            let events_ok = o.result != "Success" || real_events == exp_events;
+                            if !events_ok {
+                                *stats.entry("event_drift".into()).or_default() += 1;
+                            }
                             if !state_ok || !res_ok || !o.oracle.is_empty() {
                                 recs.push(json!({"ok": false, "state_ok": state_ok, "result_ok": res_ok,
                                     "case": c, "outcome": outcome_json(&o)}));
+                            } else if !events_ok && recs.len() < 20 {
+                                recs.push(json!({"ok": true, "drift": "events", "case": c, "outcome": outcome_json(&o)}));
                             }
                         }
                         (recs, stats)
@@ -825,6 +869,111 @@ fn main() {
             o.emit(&json!({"summary": true, "stats": total}));
             o.finish();
         }
+        // ---------------------------------------------------------------- implementation -> spec
+        "record" => {
+            let n_runs = args.num("--n", 100) as usize;
+            let nns = args.num("--ns", 4) as usize;
+            let out = PathBuf::from(args.req("--out"));
+            let mut rng = fastrand::Rng::with_seed(seed() ^ 0xfe7c);
+            let scenarios: Vec<Value> = (0..n_runs).map(|_| random_scenario(&mut rng, nns)).collect();
+            let chunks = split(scenarios, nthreads, uni_key);
+            let handles: Vec<_> = chunks
+                .into_iter()
+                .map(|chunk| {
+                    let work = work.clone();
+                    std::thread::spawn(move || {
+                        let mut cache = Cache::default();
+                        let mut recs = Vec::new();
+                        for mut c in chunk {
+                            let sc = Scenario::parse(&c);
+                            let u = cache.get(&work, &sc);
+                            let o = run_scenario(u, &sc);
+                            let events: Vec<Value> = o.applied.iter().filter(|e| e["k"] != "rejected").cloned().collect();
+                            let loc: Vec<Value> = o.after.iter().map(|p| json!({"sig": sig_record(&p.sig), "refs": p.refs})).collect();
+                            c["out"] = json!({"result": o.result, "detail": o.detail, "loc": loc, "events": events,
+                                              "oracle": o.oracle, "changed": o.before != o.after});
+                            recs.push(c);
+                        }
+                        recs
+                    })
+                })
+                .collect();
+            let mut o = Out::create(&out);
+            for h in handles {
+                for r in h.join().unwrap_or_else(|_| fatal("worker thread panicked")) {
+                    o.emit(&r);
+                }
+            }
+            o.finish();
+        }
         _ => fatal("unknown mode"),
     }
+}
+
+fn sig_record(s: &str) -> Value {
+    if s == "none" {
+        return json!({"ver": "none", "fl": "ok"});
+    }
+    match s.split_once('.') {
+        Some((v, f)) => json!({"ver": v, "fl": f}),
+        None => json!({"ver": "?", "fl": s}),
+    }
+}
+
+fn pick<'a>(rng: &mut fastrand::Rng, xs: &[&'a str]) -> &'a str {
+    xs[rng.usize(0..xs.len())]
+}
+
+fn subset(rng: &mut fastrand::Rng, n: usize, p: f64) -> Vec<usize> {
+    (1..=n).filter(|_| rng.f64() < p).collect()
+}
+
+/// A random scenario outside the bounded model's families: more namespaces, any delegate set,
+/// independent tampering of every namespace.
+fn random_scenario(rng: &mut fastrand::Rng, n: usize) -> Value {
+    let clone = rng.f64() < 0.3;
+    // a handful of identity documents, so that scenarios share universes (a universe = one real
+    // repository identity with its keys)
+    let docs: [(&[usize], usize); 8] =
+        [(&[1], 1), (&[3], 1), (&[1, 2], 1), (&[1, 2], 2), (&[2, 4], 2), (&[1, 2, 3], 2), (&[2, 3, 4], 3), (&[1, 3, 4], 1)];
+    let (ds, threshold) = docs[rng.usize(0..docs.len())];
+    let delegates: Vec<usize> = ds.iter().copied().filter(|d| *d <= n).collect();
+    let delegates = if delegates.is_empty() { vec![1] } else { delegates };
+    let threshold = threshold.min(delegates.len());
+    let local = if rng.f64() < 0.5 { 0 } else { rng.usize(1..=n) };
+    let blocked = if rng.f64() < 0.25 { subset(rng, n, 0.3) } else { vec![] };
+    let follow_all = rng.f64() < 0.75;
+    let followed = subset(rng, n, 0.5);
+    let use_refs_at = !clone && rng.f64() < 0.25;
+    let refs_at: Vec<Value> = if use_refs_at {
+        let mut v: Vec<usize> = subset(rng, n, 0.5);
+        if v.is_empty() {
+            v.push(rng.usize(1..=n));
+        }
+        v.into_iter().map(|ns| json!({"ns": ns, "ver": pick(rng, &VERS)})).collect()
+    } else {
+        vec![]
+    };
+    let mut srv = Vec::new();
+    let mut loc = Vec::new();
+    for _ in 0..n {
+        let (sig, rid, junk);
+        if rng.f64() < 0.2 {
+            sig = json!({"ver": "none", "fl": "ok"});
+            rid = if rng.f64() < 0.3 { pick(rng, &["i1", "i2", "i2f"]) } else { "none" }.to_string();
+            junk = "none";
+        } else {
+            let ver = pick(rng, &VERS);
+            let fl = if rng.f64() < 0.88 { "ok" } else { pick(rng, &["forged", "rekeyed", "otherRepo", "noRoot", "noId", "ghost"]) };
+            let honest = listing(ver, fl).get("id").copied().unwrap_or("none");
+            rid = if rng.f64() < 0.8 { honest } else { pick(rng, &["none", "i1", "i2", "i2f"]) }.to_string();
+            junk = pick(rng, &["none", "none", "extra", "moved", "missing"]);
+            sig = json!({"ver": ver, "fl": fl});
+        }
+        srv.push(json!({"sig": sig, "rid": rid, "junk": junk}));
+        loc.push(if clone || rng.f64() < 0.3 { json!({"ver": "none", "fl": "ok"}) } else { json!({"ver": pick(rng, &VERS), "fl": "ok"}) });
+    }
+    json!({"mode": if clone { "clone" } else { "pull" }, "delegates": delegates, "threshold": threshold, "local": local,
+           "blocked": blocked, "followAll": follow_all, "followed": followed, "useRefsAt": use_refs_at, "refsAt": refs_at,
+           "canon": true, "srv": srv, "loc": loc})
 }
